@@ -189,6 +189,12 @@ func runC10(c *Ctx) []Obligation {
 	out = append(out, c.c10IndexGuarded(P)...)
 	out = append(out, c.c10BoundSplit(P)...)
 	out = append(out, c.c10BoundsAsGiven(P))
+	out = append(out,
+		c.twins(P, "store.iterator.twins", "(*store/iavl.Store).Iterator", "(*store/iavl.Store).ReverseIterator", []Rename{{From: "SingleStoreCache.Iterator(", To: "SingleStoreCache.ReverseIterator("}, {From: "start, end, true)", To: "start, end, false)"}},
+			"reverse iteration consults the cache and the tree exactly as forward iteration does, in the other direction"),
+		c.twins(P, "cache.iterator.twins", "("+hcPkg+".MemoryCache).Iterator", "("+hcPkg+".MemoryCache).ReverseIterator", []Rename{{From: "orderedKeys, true)", To: "orderedKeys, false)"}},
+			"the cache's reverse iterator is its forward iterator with the direction flag flipped"),
+	)
 	return out
 }
 
